@@ -11,6 +11,8 @@ CONSTANTS
     SnapshotOnPush = TRUE
     WithLazy = TRUE
     WithCurrent = TRUE
+    FrameKinds <- MC_NoKinds
+    Sampler = TRUE
     CtxForms <- MC_Forms
     Panics = TRUE
     Emit = TRUE
